@@ -26,9 +26,9 @@ type refResult struct {
 	Why string // for refErr: which domain rule
 }
 
-func rOK(v cty.Value) refResult      { return refResult{K: refOK, V: v} }
-func rErr(why string) refResult      { return refResult{K: refErr, Why: why} }
-func rUnspec(why string) refResult   { return refResult{K: refUnspec, Why: why} }
+func rOK(v cty.Value) refResult                   { return refResult{K: refOK, V: v} }
+func rErr(why string) refResult                   { return refResult{K: refErr, Why: why} }
+func rUnspec(why string) refResult                { return refResult{K: refUnspec, Why: why} }
 func rCmp(f func(got cty.Value) string) refResult { return refResult{K: refOK, Cmp: f} }
 
 type refFn func(args []cty.Value) refResult
